@@ -337,41 +337,49 @@ def _job(spec):
         # ---- find_closest_contact -----------------------------------------------------------
         tag = "%s|%s" % (kind, "periodic" if periodic else "nonperiodic")
         t = mk()
+        groups = [("one-vs-class%d" % m, np.array([0]), np.arange(1 + m, K + 1, CC_M)) for m in range(CC_M)]
+        groups.append(("class0-vs-one", np.arange(1, K + 1, CC_M), np.array([0])))
+        for m in range(3):
+            g1 = np.array([1 + m + k * (K // 5) for k in range(5)])
+            g2 = np.setdiff1d(np.arange(1 + (m + 3) % CC_M, K + 1, CC_M), g1)
+            groups.append(("five-vs-class%d" % ((m + 3) % CC_M), g1, g2))
         for f in range(3):
-            dj = dstar[f, :n1] if per else eucl[f, :n1]            # pair (0, j), j = 1..K at index j-1
-            tj = (tolP if per else tolE)[f, :n1]
-            for m in range(CC_M + 1):
-                swap = m == CC_M
-                g2 = np.arange(1 + (0 if swap else m), K + 1, CC_M, dtype=np.int32)
-                g1 = np.array([0], dtype=np.int32)
-                a1, a2, dist = md.find_closest_contact(t, g2 if swap else g1, g1 if swap else g2, frame=f, periodic=periodic)
+            for label, g1, g2 in groups:
+                g1 = g1.astype(np.int32)
+                g2 = g2.astype(np.int32)
+                a1, a2, dist = md.find_closest_contact(t, g1, g2, frame=f, periodic=periodic)
                 acc.n["closest_contact_calls"] += 1
                 acc.n["evaluations"] += 1
-                if swap:
-                    a1, a2 = a2, a1
                 sig = "closest_contact|%s|" % tag
-                if a1 != 0 or a2 not in g2:
-                    acc.add(sig + "atoms-not-in-groups", "returned atoms (%d,%d) frame %d m %d" % (a1, a2, f, m))
+                where = "job=%s mode=%s frame %d groups %s" % (spec["name"], spec["mode"], f, label)
+                if a1 not in g1 or a2 not in g2:
+                    acc.add(sig + "atoms-not-in-groups", "%s: returned atoms (%d,%d)" % (where, a1, a2))
                     continue
-                ds = dj[g2 - 1]
-                mstar = ds.min()
-                tl = tj[g2 - 1].max()
+                rr = x64[f, g2][None, :, :] - x64[f, g1][:, None, :]
+                if per:
+                    dm = gc.min_image(rr, Vst[f])["d"]
+                    tl = float(gc.tol_disp(rr, Vst[f][None]).max())
+                else:
+                    dm = np.linalg.norm(rr, axis=-1)
+                    tl = float(gc.tol_disp(rr).max())
+                mstar = float(dm.min())
+                dpair = float(dm[list(g1).index(a1), list(g2).index(a2)])
                 judged_equal = (not per) or ortho[f] or mstar < hw[f]
                 e_lo = max(mstar - dist, 0.0)
                 acc.ratio["closest-never-below"] = max(acc.ratio["closest-never-below"], e_lo / tl)
                 if e_lo > tl:
-                    acc.add(sig + "below-minimum", "frame %d group m=%d: distance %.7g below the smallest image distance %.7g of "
-                            "any pair (tol %.2e); job=%s" % (f, m, dist, mstar, tl, spec["name"]))
+                    acc.add(sig + "below-minimum", "%s: distance %.7g below the smallest image distance %.7g of any pair "
+                            "(tol %.2e)" % (where, dist, mstar, tl))
                 if judged_equal:
                     e = abs(dist - mstar)
                     acc.ratio["closest-min"] = max(acc.ratio["closest-min"], e / tl)
                     if e > tl:
-                        acc.add(sig + "not-the-closest", "frame %d group m=%d swap=%s: distance %.7g, closest pair has %.7g "
-                                "(pair (0,%d)), tol %.2e; job=%s mode=%s" % (f, m, swap, dist, mstar, g2[ds.argmin()], tl, spec["name"], spec["mode"]))
-                    e2 = dj[a2 - 1] - mstar
-                    if e2 > 2 * tl:
-                        acc.add(sig + "wrong-pair", "frame %d group m=%d: returned pair (0,%d) has d*=%.7g, closest is %.7g"
-                                % (f, m, a2, dj[a2 - 1], mstar))
+                        i1, i2 = np.unravel_index(dm.argmin(), dm.shape)
+                        acc.add(sig + "not-the-closest", "%s: distance %.7g, the closest pair (%d,%d) has %.7g, tol %.2e"
+                                % (where, dist, g1[i1], g2[i2], mstar, tl))
+                    if dpair - mstar > 2 * tl:
+                        acc.add(sig + "wrong-pair", "%s: returned pair (%d,%d) has d*=%.7g, the closest has %.7g"
+                                % (where, a1, a2, dpair, mstar))
                 else:
                     acc.n["closest_contact_beyond_domain"] += 1
     acc.n["core_calls_that_rewrote_callers_unitcell_vectors"] += mutated
